@@ -109,6 +109,25 @@ theorem write_accepts_range (hash : String → Nat) (M : Meta) (p : Point) (g : 
   refine ⟨⟨g, s, sk⟩, ?_, rfl, (destShard_some hs).2⟩
   simp [writePoint, routeIn, hg, hsk, hr, hs]
 
+/-! ### the store's own time-range test -/
+
+/-- `shard.Intersect` (engine/shard.go, translated) keeps every shard whose half-open span holds
+a timestamp of the query range. -/
+theorem store_intersect_covers (s e t tmin tmax : Int) (h1 : s ≤ t) (h2 : t < e)
+    (hlo : tmin ≤ t) (hhi : t ≤ tmax) : storeIntersect s e tmin tmax = true := by
+  unfold storeIntersect
+  simp
+  omega
+
+/-- the store-side test never drops a shard the coordinator selected: `Overlaps` (meta side,
+translated) implies `Intersect` (store side, translated) on the same span. -/
+theorem store_recheck_keeps_coordinator_choice (g : Group) (tmin tmax : Int)
+    (h : g.Overlaps tmin tmax = true) : storeIntersect g.StartTime g.EndTime tmin tmax = true := by
+  unfold Group.Overlaps at h
+  unfold storeIntersect
+  simp at h ⊢
+  omega
+
 namespace RangeWitness
 def shards3 : List Shard := [⟨1, "", "m,host=c"⟩, ⟨2, "m,host=c", "m,host=k"⟩, ⟨3, "m,host=k", ""⟩]
 def gr : Group := ⟨1, 0, 100, false, none, shards3, [0, 1, 2], none⟩
